@@ -56,12 +56,42 @@ def p2_pool():
     return P
 
 
+def p1_counter_residue(units):
+    """P1 that allocates and drops `units` allocation units (lists of 3 elements = 4 units each) and ends normally by a
+    break from nested ifs: the only thing it leaves behind is the interpreter's allocation counter"""
+    n = units // 4
+    return [("decl", "প১ক", G.num(0)),
+            ("loop", [("assign", "প১ক", [], G.bin_("+", G.var("প১ক"), G.num(1))),
+                      ("if", [(G.bin_(">", G.var("প১ক"), G.num(n)), [("if", [(G.b(True), [("break",)])], None)])], None),
+                      ("decl", "প১ফেলা", G.lst(G.var("প১ক"), G.num(2), G.num(3)))]),
+            ("print", G.s("প১ শেষ"))]
+
+
+def p2_temporaries(m, shape):
+    """P2 that holds fresh, not yet stored containers while a callee allocates"""
+    f = ("func", "প২বানাও", ["n"], [("decl", "i", G.num(0)),
+                                     ("loop", [("if", [(G.bin_(">=", G.var("i"), G.var("n")), [("break",)])], None),
+                                               ("assign", "i", [], G.bin_("+", G.var("i"), G.num(1))), ("decl", "t", G.lst(G.var("i"), G.var("i")))]),
+                                     ("return", G.var("n"))])
+    call = G.call("প২বানাও", G.num(m))
+    e = [G.bin_("+", G.lst(G.num(7), G.num(8), G.num(9)), G.lst(call)),
+         G.lst(G.lst(G.s("ক"), G.s("খ")), G.rec((G.s("k"), G.lst(G.num(1)))), call),
+         G.rec((G.s("আগে"), G.lst(G.num(1), G.num(2))), (G.s("ডাক"), call))][shape]
+    return [f, ("decl", "প২ফল", e), ("print", G.var("প২ফল")), ("print", G.s("প২ শেষ"))]
+
+
 def compose_oracle(case, impl, model):
     a1, a2, a12 = (C.RunAns(x) for x in impl)
     if a1.kind != "ok":
         return []   # P1 must terminate normally for the property to speak
     probs = []
-    if a12.out != (a1.out or "") + (a2.out or ""):
+    m1, m2 = C.RunAns(model[0]), C.RunAns(model[1])
+    same = a12.out == (a1.out or "") + (a2.out or "")
+    if not same and m1.out is not None and m2.out is not None:
+        # record entries print in an unspecified order: compare up to their permutation, using the model's template
+        tpl = m1.out + m2.out
+        same = C.match_template(tpl, a12.out or "") and C.match_template(m1.out, a1.out or "") and C.match_template(m2.out, a2.out or "")
+    if not same:
         probs.append(f"output of P1;P2 {a12.out!r} is not output(P1) ++ output(P2) = {(a1.out or '') + (a2.out or '')!r}")
     if a12.kind != a2.kind or (a2.kind == "err" and a12.err_class() != a2.err_class()):
         probs.append(f"P1;P2 ends with {a12.status[:2]}, P2 alone ends with {a2.status[:2]}")
@@ -82,6 +112,11 @@ def cases(rng, tier, stats):
         a = g1.program(r.range(2, 7)) if r.chance(0.6) else r.choice(P1)
         b = g2.program(r.range(2, 7)) if r.chance(0.6) else r.choice(P2)
         pairs.append((a, b))
+    # residue in the allocation counter: P1 leaves it just below the collection threshold, P2 alone stays far below it
+    for units in ((900, 960, 980, 996) if tier != "thorough" else range(700, 1000, 12)):
+        for m in (20, 40):
+            for shape in range(3):
+                pairs.append((p1_counter_residue(units), p2_temporaries(m, shape)))
     skipped = 0
     for a, b in pairs:
         s1, s2 = G.source(a, "lines"), G.source(b, "lines")
